@@ -76,6 +76,7 @@ type VC struct {
 	specErrors []string
 	loopHeads  map[*ssa.Function]map[*ssa.BasicBlock]*loopInfo
 	missingFuncs []string
+	eventFired map[*Event]int
 	canaries   map[string][]*Obligation
 	canaryOrder []string
 }
@@ -88,7 +89,7 @@ func newVC() *VC {
 		leafCache: map[string][]leaf{}, arrSorts: map[string]Sort{}, arrInfo: map[string]arrInfo{}, needCard: map[string]Sort{},
 		strLits: map[string]int{"": 0}, typeIDs: map[string]int{}, funcIDs: map[string]int{},
 		abstracted: map[string]map[string]bool{}, inlined: map[string]map[string]bool{}, maxPaths: 20000,
-		canaries: map[string][]*Obligation{}, ssaPkgs: map[string]*ssa.Package{}, loopHeads: map[*ssa.Function]map[*ssa.BasicBlock]*loopInfo{},
+		canaries: map[string][]*Obligation{}, eventFired: map[*Event]int{}, ssaPkgs: map[string]*ssa.Package{}, loopHeads: map[*ssa.Function]map[*ssa.BasicBlock]*loopInfo{},
 	}
 }
 
@@ -219,10 +220,23 @@ func (vc *VC) qualify(name string, pkg *packages.Package, tail int) (string, err
 // pkgPathOf resolves a package name or path (possibly abbreviated) to a loaded package path.
 func (vc *VC) pkgPathOf(pk string, ctx *packages.Package) (string, error) {
 	if ctx != nil {
+		var hits []string
 		for path, imp := range ctx.Imports {
-			if imp.Name == pk || path == pk {
+			if path == pk {
 				return path, nil
 			}
+			if imp.Name == pk {
+				hits = append(hits, path)
+			}
+		}
+		sort.Strings(hits)
+		for _, h := range hits {
+			if strings.HasPrefix(h, "tkestack.io/kvass/") {
+				return h, nil
+			}
+		}
+		if len(hits) > 0 {
+			return hits[0], nil
 		}
 		if ctx.Name == pk {
 			return ctx.PkgPath, nil
